@@ -1,2 +1,3 @@
 -- Root of the `TgModel` library: models, lemmas and one property file per claimed property.
 import TgModel.Props.C01
+import TgModel.Props.C10
